@@ -50,7 +50,10 @@ def _data():
         for t, d, dur in doses:
             rows.append({'ID': _id, 'Time': t, 'Observable': np.nan,
                          'Value': np.nan, 'Dose': d, 'Duration': dur})
-    return pd.DataFrame(rows)
+    df = pd.DataFrame(rows)
+    # (row labels as a cohort sliced out of a larger dataset carries them)
+    df.index = [3 * i + 5 for i in range(len(df))]
+    return df
 
 
 class World(object):
@@ -239,13 +242,20 @@ class ErrWorld(object):
         self.user, self.obj = {}, {}
         df = pd.DataFrame({'ID': [1] * 3, 'Time': [0.3, 1.1, 1.9],
                            'Observable': ['o0'] * 3, 'Value': [1.3, 2.1, 0.9]})
+        self.lists, self.sib = {}, {}
         for code, cls in ERR_KINDS.items():
             em = getattr(chi, cls)()
             self.user[code] = em
+            # ONE list object of the user's serves every object built from the model
+            # (and a sibling likelihood that is reconfigured later)
+            ems = [em]
+            self.lists[code] = ems
             self.obj['ll' + code] = chi.LogLikelihood(
-                ToyModel(2, 1), [em], [1.3, 2.1, 0.9], [0.3, 1.1, 1.9])
-            self.obj['pred' + code] = chi.PredictiveModel(ToyModel(2, 1), [em])
-            c = chi.ProblemModellingController(ToyModel(2, 1), [em])
+                ToyModel(2, 1), ems, [1.3, 2.1, 0.9], [0.3, 1.1, 1.9])
+            self.sib[code] = chi.LogLikelihood(
+                ToyModel(2, 1), ems, [1.1, 2.0], [0.4, 1.5])
+            self.obj['pred' + code] = chi.PredictiveModel(ToyModel(2, 1), ems)
+            c = chi.ProblemModellingController(ToyModel(2, 1), ems)
             c.set_data(df, output_observable_dict={'o0': 'o0'})
             c.set_log_prior(pints.ComposedLogPrior(*[
                 pints.UniformLogPrior(0, 10)
@@ -290,6 +300,8 @@ def err_ops():
         ops.append(['x_names', 'ctrl' + code, 0])
         ops.append(['x_getpost', 'ctrl' + code, 1])
         ops.append(['mut_xren', code, 0])
+        if code != 'R':
+            ops.append(['mut_xsib', code, 0])
     for who in ('a', 'b'):
         ops.append(['x_pp', 'ppm:' + who, 3])
     return ops
@@ -302,6 +314,12 @@ def apply_err(world, op):
         # another value (and fixes another one on top)
         world.user['R'].fix_parameters({'p1': 1.9})
         world.user['R'].fix_parameters({'p0': 0.4})
+        return ['mutated'], True
+    if kind == 'mut_xsib':
+        # a sibling likelihood built from the same list of error models gets its
+        # last noise parameter fixed, and the user empties their list afterwards
+        sib = world.sib[name]
+        sib.fix_parameters({sib.get_parameter_names()[-1]: 0.33})
         return ['mutated'], True
     if kind == 'mut_xren':
         # the user renames the parameters of their own error model
@@ -338,7 +356,13 @@ def apply_err(world, op):
         r = [o.compute_pointwise_ll(x)]
     else:
         raise ValueError(kind)
-    return r + [' | '.join(o.get_parameter_names())], np.array_equal(x, x0)
+    intact = True
+    if name[2:] in getattr(world, 'lists', {}):
+        # (the list of error models handed over still holds the user's model)
+        lst = world.lists[name[2:]]
+        intact = len(lst) == 1 and lst[0] is world.user[name[2:]]
+    return r + [' | '.join(o.get_parameter_names())], \
+        np.array_equal(x, x0) and intact
 
 
 def model_ops():
@@ -696,7 +720,9 @@ def w_history(case):
         return {'transitions': len(case['ops']) + 1,
                 'outcome': key_of(case['ops']), 'violations': viol}
     w = World(tuple(case.get('pre', ())))
-    df0 = w.df.copy(deep=True)
+    # (compared with a frame built afresh: the world's frame was handed to the
+    # controller when the world was built)
+    df0 = _data()
     check_history(w, case['ops'], viol)
     if not df0.equals(w.df):
         viol.append({'sub': 'frame', 'message': 'the data frame given to the '
@@ -925,3 +951,4 @@ META['level_text'] += (
     "s taken from a controller or built from the user's filter in mid-history; tabl"
     'es with regimens; repeats of one operation within a history are required to be'
     ' bit-identical (every a-b-a history around numerically integrated models).')
+META['level_text'] += (' Wave 9: frames with the row labels of a slice, one list of error models serving likelihood, sibling, predictive model and controller.')
